@@ -82,6 +82,10 @@ func balCases(tier string) []balCase {
 	for i := range directedGroups {
 		cs = append(cs, balCase{kind: "directed", strat: directedGroups[i].strat, subIdx: i, n: 40})
 	}
+	// one topic, identical subscriptions, every member count x partition count of a grid (boundary arithmetic)
+	for _, st := range strats {
+		cs = append(cs, balCase{kind: "sweep", strat: st})
+	}
 	// sticky, generation conflicts: a member that missed a rebalance still claims (with an older
 	// generation) partitions another member owns now, under every subscription pattern of 3 members x 2 topics
 	cs = append(cs, balCase{kind: "conflict", strat: "sticky", m: 3, t: 2})
@@ -619,6 +623,24 @@ func (e *balanceEngine) Run(prop, tier string, seed int64, idx int) proto.Rec {
 		e.step(r, c, rng)
 	case "conflict":
 		e.conflict(r)
+	case "sweep":
+		maxM, maxP := 40, 150
+		if c.strat == "sticky" {
+			maxM, maxP = 12, 40 // the sticky assignor is cubic
+		}
+		for m := 1; m <= maxM; m++ {
+			for np := 1; np <= maxP; np++ {
+				in := &balInput{strat: c.strat, members: map[string]sarama.ConsumerGroupMemberMetadata{}, topics: map[string][]int32{"t": seqParts(np)}, prior: "none"}
+				for i := 0; i < m; i++ {
+					in.members[fmt.Sprintf("m%02d", i)] = sarama.ConsumerGroupMemberMetadata{Topics: []string{"t"}}
+				}
+				plan, ok := r.plan(in)
+				if !ok {
+					break
+				}
+				r.check(in, plan)
+			}
+		}
 	case "directed":
 		g := directedGroups[c.subIdx]
 		for i := 0; i < c.n; i++ {
